@@ -169,6 +169,7 @@ func c10Body(sc c10Scn, tracing bool, res *string) func(x *sched.Exec) {
 			// what newSpan installs when Go execution tracing is enabled
 			rs.executionTracerTaskEnd = func() { sched.Yield("runtime/trace task end", rs) }
 		}
+		var dupAttrs atomic.Int32
 		var firstEndReturned, endCalls atomic.Int64 // scheduler steps (0 = not yet)
 		var childStartedBeforeEndCall, childStartCalledBeforeEndReturn atomic.Int32
 		var firstEndCalled atomic.Int64
@@ -232,8 +233,30 @@ func c10Body(sc c10Scn, tracing bool, res *string) func(x *sched.Exec) {
 						if op == "Child" {
 							c.End()
 						}
+					case "NewRoot": // a span started under this span's context WITH WithNewRoot is nobody's child
+						_, c := tr.Start(ctx, "child", trace.WithNewRoot())
+						if psc := c.(ReadOnlySpan).Parent(); psc.IsValid() {
+							x.Fail("C10|new-root-has-a-parent", "a span started with WithNewRoot reports the parent %s", psc.SpanID())
+						}
+						c.End()
 					case "Unreg1":
 						tp.UnregisterSpanProcessor(p1)
+					case "Getters": // what a processor that kept the ReadWriteSpan from OnStart may read at any time
+						_ = rs.Name()
+						_ = rs.StartTime()
+						_ = rs.EndTime()
+						_ = len(rs.Attributes()) // the call is the subject; what it returns is the span's own storage while the span lives
+						_ = rs.Links()
+						_ = rs.Events()
+						_ = rs.Status()
+						_ = rs.SpanKind()
+						_ = rs.Parent()
+						_ = rs.SpanContext()
+						_ = rs.Resource()
+						_ = rs.InstrumentationScope()
+						_ = rs.DroppedAttributes() + rs.DroppedEvents() + rs.DroppedLinks() + rs.ChildSpanCount()
+					case "AttrDup": // the same keys again: the getter still lists each key once
+						sp.SetAttributes(attribute.Int("k", 3), attribute.Int("k", 4), attribute.Int("l", 5))
 					case "Unreg2":
 						tp.UnregisterSpanProcessor(p2)
 					case "ShutdownTP":
@@ -308,6 +331,18 @@ func c10Body(sc c10Scn, tracing bool, res *string) func(x *sched.Exec) {
 			}
 			*res = fmt.Sprintf("p1=%d p2=%d p3=%d", p1.ends.Load(), p2.ends.Load(), p3.ends.Load())
 			return
+		}
+		if sc.name[0] == 'T' {
+			seen := map[attribute.Key]bool{}
+			for _, a := range rs.Attributes() {
+				if seen[a.Key] {
+					dupAttrs.Add(1)
+				}
+				seen[a.Key] = true
+			}
+		}
+		if n := dupAttrs.Load(); n != 0 {
+			x.Fail("C10|getter-lists-a-key-twice", "ReadWriteSpan.Attributes() listed a key more than once (%d duplicates seen by a concurrent reader)", n)
 		}
 		tpShutdown := false
 		for _, t := range sc.threads {
@@ -409,6 +444,8 @@ func c10Jobs(thorough, race bool) []c10Job {
 		{"O-registers-racing-unregister", [][]string{{"Unreg1"}, {"Register"}, {"Register3"}}, false, "regRace"},
 		{"P-sampler-reusing-its-attribute-slice", [][]string{{"Attr", "End"}, {"Span2"}}, false, "reuseSampler"},
 		{"Q-atlimit-attr-vs-attributes-of-another-span", [][]string{{"Attr", "End"}, {"Span2Same"}}, true, ""},
+		{"U-children-and-a-new-root-started-under-the-span", [][]string{{"Child", "NewRoot"}, {"NewRoot", "End"}}, false, ""},
+		{"T-getters-of-the-live-span-vs-mutators", [][]string{{"Attr", "AttrDup"}, {"Getters", "Getters"}, {"Event", "EndTS"}}, false, ""},
 		{"R-onend-ends-a-span-itself-vs-unregister-of-another-processor", [][]string{{"End"}, {"Unreg2"}}, false, "reentrant"},
 		{"S-onend-ends-a-span-itself-vs-provider-shutdown", [][]string{{"End", "IsRec"}, {"ShutdownTP"}}, false, "reentrant"},
 	}
